@@ -1,35 +1,11 @@
-(* Witnesses for the two recorded C02 findings, evaluated on the model (which the correspondence
+(* Witness for the recorded C02 finding, evaluated on the model (which the correspondence
    streams tie to the implementation). These are NOT obligations of any check: when the defect is
    repaired in the source this file stops compiling and the KNOWN-FINDING line disappears. *)
 From Wire Require Import Base.Bytes Model.GoV Model.Codec Model.Message Model.Writer Model.Reader Model.Harness.
 From WireGen Require Import Tags.
 
-Definition amount_text : bytes := bs "{1500}303O004HE8P 
-{1510}1000
-{1520}2022032400000000000001
-{2000} 00000022200
-{3100}021000021JPMORGAN CHASE    *
-{3400}021000021JPMCHASE          *
-{3600}CTR
-{4100}F021000021                         *JPMC                               *123 Test st                        *Test                               *Test                               *
-{4200}D123455                            *Test Name                          *123 Test St                        *Town                               *MO                                 *
-{5000}D123456                            *John Doe                           *123 Anywhere St                    *Anywhere                           *MO                                 *
-{5100}D998877                            *Xxxx First Bank                    *158 Anywhere St                    *Anywhere                           *MO                                 *
-{5200}F404123787                         *Xxxxxxx Bank                       *144 Anywhere St                    *Anywhere                           *MO                                 *
-{6000}Test                               *                                   *                                   *                                   *
-{6500}Test                               *                                   *                                   *                                   *                                   *                                   *
-".
-
-Theorem C02_fixpoint_refuted_blank_padded_amount :
-  exists m1 t2 m2, read_model None None [amount_text] FEOF = ROk m1 /\ write_model m1 false [x0a] = WOk t2 /\
-                   read_model None None [t2] FEOF = ROk m2 /\ list_eqb otag_eqb (m_tags m1) (m_tags m2) = false.
-Proof.
-  destruct (read_model None None [amount_text] FEOF) as [m1|] eqn:R1; [|vm_compute in R1; discriminate].
-  destruct (write_model m1 false [x0a]) as [t2| |] eqn:W; try (vm_compute in R1; injection R1 as <-; vm_compute in W; discriminate).
-  destruct (read_model None None [t2] FEOF) as [m2|] eqn:R2; [|vm_compute in R1; injection R1 as <-; vm_compute in W; injection W as <-; vm_compute in R2; discriminate].
-  exists m1, t2, m2. repeat split; auto.
-  vm_compute in R1; injection R1 as <-; vm_compute in W; injection W as <-; vm_compute in R2; injection R2 as <-. vm_compute. reflexivity.
-Qed.
+(* the blank-padded {2000} amount (read as 11 digits, rewritten as 12) was repaired in the source (fix e9d8de9:
+   Amount.Parse keeps the element as read); its witness has been removed *)
 
 Definition overwidth_text : bytes := bs "{4200}3QQQQQQQQQQQQQQQQQQQQQQQQQQQQQQQQQ ZZ*Name*Address One*Address Two*Address Three*".
 
